@@ -284,6 +284,22 @@ def handleRead (pre : Predef) (env : Env V) (n : Node J V) (spec : Spec) (hasDat
       | .error e => refuse n e
       | .ok (mod, p) => readParam pre env n mod p
 
+/-! ### assignment by module code -/
+
+/-- `self.<attr> = raw` / `announceUpdate(attr, raw)` inside the module (a driver, a poller, a callback):
+`Parameter.__set__` → `announceUpdate(validate=True)` (modulebase.py 521-553): the value is converted by the datatype;
+a value the datatype refuses is NOT stored — the cache keeps its value and gets the error -/
+def handleAssign (pre : Predef) (n : Node J V) (m attr : String) (raw : Option V) : Outcome J V :=
+  match findModule n m with
+  | none => ⟨.done none, [], [], n⟩
+  | some mod =>
+    match mod.accs.find? (fun a => a.attr == attr) with
+    | some (.param p) =>
+      match p.dt.convert raw with
+      | .error e => { readFailed pre n mod p e [] with reply := .done none }
+      | .ok v => store pre n mod p v [] (fun _ => .done none)
+    | _ => ⟨.done none, [], [], n⟩
+
 /-- the specifier as it stands in the request line: `None`/empty, or cut at the first colon -/
 def parseSpec (s : Option String) : Spec :=
   match s with
@@ -298,23 +314,25 @@ def parseSpec (s : Option String) : Spec :=
 
 /-! ### histories -/
 
-inductive Request (J : Type)
+inductive Request (J V : Type)
   | change (spec : Spec) (j : J)
   | do_ (spec : Spec) (data : Option J)
   | read (spec : Spec) (hasData : Bool)
+  | assign (m attr : String) (raw : Option V)      -- not a request: module code assigns a parameter (raw value by name)
   deriving Repr
 
-def step (pre : Predef) (env : Env V) (n : Node J V) : Request J → Outcome J V
+def step (pre : Predef) (env : Env V) (n : Node J V) : Request J V → Outcome J V
   | .change spec j => handleChange pre env n spec j
   | .do_ spec data => handleDo pre env n spec data
   | .read spec hasData => handleRead pre env n spec hasData
+  | .assign m attr raw => handleAssign pre n m attr raw
 
 /-- a history: each request is served with the drivers / hooks behaving as they do at that moment -/
-def run (pre : Predef) : Node J V → List (Env V × Request J) → List (Outcome J V)
+def run (pre : Predef) : Node J V → List (Env V × Request J V) → List (Outcome J V)
   | _, [] => []
   | n, (env, r) :: rest => let o := step pre env n r; o :: run pre o.node rest
 
-def finalNode (pre : Predef) : Node J V → List (Env V × Request J) → Node J V
+def finalNode (pre : Predef) : Node J V → List (Env V × Request J V) → Node J V
   | n, [] => n
   | n, (env, r) :: rest => finalNode pre (step pre env n r).node rest
 
